@@ -191,6 +191,15 @@ def runner_runs_all_jobs(ctx, r, rid):
     if len(made) != 1:
         raise AnalysisError(rid, f"expected one AsyncCliCommand(...) in JobRunner._generate_jobs, found {len(made)}")
     loops = ctx.enclosing(fn, made[0], (ast.For,))
+    comps = [c for c in ctx.enclosing(fn, made[0], (ast.ListComp, ast.GeneratorExp)) if c.elt is made[0]]
+    if not loops and len(comps) == 1 and len(comps[0].generators) == 1:
+        # comprehension form of the same loop: [AsyncCliCommand(...) for job in <source> (if ...)]
+        g = comps[0].generators[0]
+        txt = ctx.src(g.iter)
+        r.check(txt in ("self._config.iter_jobs()", "self.config.iter_jobs()") and not g.ifs, "every job of the runner's configuration is wrapped and queued", key_of(fn, "job source"), fn.loc(comps[0]),
+                f"JobRunner._generate_jobs builds commands from `{txt}`" + (" under a filter" if g.ifs else "") + ", not from every job of its configuration: the jobs left out are never run by anyone and end as missing",
+                "exactly one entry per configured job, no missing jobs, independent of submission groups and local versus HPC mode")
+        return
     if len(loops) != 1:
         raise AnalysisError(rid, "AsyncCliCommand(...) is not built in a single for loop")
     it = inlined_expr(ctx, fn, loops[0].iter)
@@ -277,6 +286,8 @@ def event_timestamp_sortable(ctx, r, rid):
             fields = _re.findall(r"%[A-Za-z]", "".join(parts))
             order = [f for f in fields if f in ("%Y", "%m", "%d", "%H", "%M", "%S", "%f", "%y", "%b", "%B", "%I", "%p", "%j")]
             ok = order[:6] == ["%Y", "%m", "%d", "%H", "%M", "%S"] and all(f == "%f" for f in order[6:])
+        if not ok and not (isinstance(v, ast.Call) and isinstance(v.func, ast.Attribute) and v.func.attr == "strftime"):
+            raise AnalysisError(rid, f"time stamp rendering `{txt[:80]}` is neither str(datetime.now()) / isoformat() nor a strftime format: its sort order is not decided here")
         r.check(ok, "a new event's time stamp is rendered most-significant field first", key_of(init, "timestamp rendering"), init.loc(st),
                 f"StructuredLogEvent stamps new events with `{txt[:100]}`; the summary orders events by a string sort on that text, which is chronological only for year-month-day-time order - "
                 "events of January sort before those of the preceding December", "every event appears once, ordered by time within its name")
@@ -383,6 +394,27 @@ def dependency_check_refusals(ctx, r, rid):
             f"check_job_dependencies raises under {sorted(forms)}", "every valid configuration is accepted")
 
 
+# ------------------------------------------------------------------------------------------------ rows pruned = jobs reset
+def pruned_set_is_reset_set(ctx, r, rid):
+    """resubmit-jobs removes the old rows of a set of jobs from the results file and sets a set of jobs back to not_submitted.  The two must be the
+    same set: a job whose row is pruned but whose state stays `done` is counted as completed with no result and is never rerun; a job reset but not
+    pruned ends with two rows."""
+    fn = ctx.fn("resubmit_jobs.resubmit_jobs", rid)
+    resets = ctx.some_sites(fn, rid, short="Cluster.prepare_for_resubmission")
+    prunes = [s for s in ctx.cg.sites_in(fn) if "RESULT_WRITE" in ctx.site_may(s) and not s.calls_short(ctx.ix, "Cluster.deserialize") and not (ctx.site_may(s) & {"HANDOFF", "LAUNCH"})]
+    if not prunes:
+        raise AnalysisError(rid, "no result pruning call found in resubmit_jobs")
+    for s in resets:
+        a0 = s.node.args[0] if s.node.args else None
+        if not isinstance(a0, ast.Name):
+            raise AnalysisError(rid, "the set handed to prepare_for_resubmission is not a local")
+        pruned = {x.id for p_ in prunes for x in list(p_.node.args) + [k.value for k in p_.node.keywords] if isinstance(x, ast.Name)}
+        defs = [st for st in iter_own(fn.node) if isinstance(st, ast.Assign) and any(a0.id in {n.id for n in ast.walk(t) if isinstance(n, ast.Name)} for t in st.targets)]
+        r.check(a0.id in pruned and len(defs) == 1, "the jobs reset are the jobs whose rows were pruned (one variable, bound once)", key_of(fn, "reset set differs from pruned set"), s.loc,
+                f"prepare_for_resubmission receives `{a0.id}` while the result pruning receives {sorted(pruned)}: jobs in one set and not the other are either `done` without a result (never rerun, "
+                "counted as completed) or reset with their old row still in place", "every done job has a recorded result / afterwards the results again hold one entry per job")
+
+
 TABLE = {
     "C01": [("C01.20", "T2", "sbatch is not repeated after SLURM accepted the script", 1, sbatch_once)],
     "C11": [("C11.13", "T2", "sbatch is not repeated after SLURM accepted the script", 1, sbatch_once),
@@ -399,6 +431,8 @@ TABLE = {
     "C12": [("C12.12", "T1", "the completion step's error-log scan is total: no unchecked regex match, no raise", 2, completion_scan_total)],
     "C05": [("C05.24", "T1", "the completion step's error-log scan is total: no unchecked regex match, no raise", 2, completion_scan_total),
             ("C05.23", "T13", "a batch that ran to its end always triggers the next submitter round (the runner's answer does not depend on the jobs' return codes)", 1, runner_status_good)],
+    "C09": [("C09.17", "T8", "resubmit-jobs resets exactly the jobs whose result rows it pruned", 1, pruned_set_is_reset_set)],
+    "C13": [("C13.11", "T8", "resubmit-jobs resets exactly the jobs whose result rows it pruned", 1, pruned_set_is_reset_set)],
     "C17": [("C17.12", "T1", "check_job_dependencies refuses only for a blocker that does not exist (any other refusal is not understood, exit 2)", 1, dependency_check_refusals)],
     "C20": [("C20.13", "T3", "the printed / stored tallies run over every result, whatever the display filter", 4, tally_domain),
             ("C20.12", "T9", "event time stamps are rendered so that the summary's string sort is chronological", 2, event_timestamp_sortable)],
